@@ -521,6 +521,76 @@ func genDeepQos2(r *hx.Rng) []hx.Group {
 	return evs
 }
 
+// retained messages on leaf and inner topics of a small tree, updated and cleared, and new subscriptions with every
+// shape of wildcard filter over that tree (a "+" level followed by "#", "+" at the end, "#" alone, ...): each must be
+// sent exactly the retained messages its filter matches
+func genRetainedTree(r *hx.Rng) []hx.Group {
+	var evs []hx.Group
+	names := []string{"s", "s/k", "s/h", "s/h/t", "s/h/t/u", "x", "x/y"}
+	filters := []string{"s/+/#", "+/#", "+/+/#", "s/#", "s/+", "#", "+", "s/+/t", "s/h/#", "+/+", "s/+/+/#", "s/k/#", "x/#", "+/y"}
+	evs = append(evs, evConnect(1, true, mq.Connect(mq.ConnectOpts{ClientID: "rp", Clean: true, KeepAlive: 60, Flags: -1})))
+	for k, n := 0, 3+r.Intn(6); k < n; k++ {
+		t := names[r.Intn(len(names))]
+		var pl []byte
+		if !r.Chance(15) {
+			pl = r.Bytes(1 + r.Intn(3))
+		}
+		evs = append(evs, evBytes(1, mq.Publish(t, pl, 0, true, false, 0)))
+	}
+	id := 1
+	for k, n := 0, 3+r.Intn(5); k < n; k++ {
+		id++
+		evs = append(evs, evConnect(id, true, mq.Connect(mq.ConnectOpts{ClientID: "rs" + string(rune('a'+k)), Clean: true, KeepAlive: 60, Flags: -1})))
+		nf := 1 + r.Intn(3)
+		var fs []string
+		var qs []int
+		for j := 0; j < nf; j++ {
+			fs, qs = append(fs, filters[r.Intn(len(filters))]), append(qs, r.Intn(3))
+		}
+		evs = append(evs, evBytes(id, mq.Subscribe(1+k, fs, qs)))
+		if r.Chance(40) {
+			t := names[r.Intn(len(names))]
+			var pl []byte
+			if !r.Chance(30) {
+				pl = r.Bytes(1 + r.Intn(3))
+			}
+			evs = append(evs, evBytes(1, mq.Publish(t, pl, 0, true, false, 0)))
+		}
+		if r.Chance(50) {
+			evs = append(evs, evBytes(id, mq.Disconnect()))
+		}
+	}
+	return evs
+}
+
+// connections whose client writes its last packets and closes at once, over a transport that reports the end of the
+// stream together with the last bytes: a DISCONNECT among them discards the will, publishes among them are
+// delivered, anything else ends the connection as a failure (will published)
+func genSendClose(r *hx.Rng) []hx.Group {
+	var evs []hx.Group
+	evs = append(evs, evConnect(1, true, mq.Connect(mq.ConnectOpts{ClientID: "watch", Clean: true, KeepAlive: 60, Flags: -1})))
+	evs = append(evs, evBytes(1, mq.Subscribe(1, []string{"will/#", "d/#"}, []int{1, 1})))
+	id := 1
+	for k, n := 0, 2+r.Intn(4); k < n; k++ {
+		id++
+		cid := "sc" + string(rune('a'+k))
+		o := mq.ConnectOpts{ClientID: cid, Clean: r.Bool(), KeepAlive: 60, Flags: -1, Will: true, WillTopic: "will/" + cid, WillMsg: []byte("gone"), WillQoS: r.Intn(2), WillRet: r.Chance(20)}
+		evs = append(evs, evConnect(id, true, mq.Connect(o)))
+		var b []byte
+		if r.Chance(60) {
+			b = append(b, mq.Publish("d/x", r.Bytes(1+r.Intn(4)), r.Intn(2), false, false, 10+k)...)
+		}
+		if r.Chance(65) {
+			b = append(b, mq.Disconnect()...)
+		}
+		if len(b) == 0 {
+			b = mq.Pingreq()
+		}
+		evs = append(evs, hx.GB([]int64{9, int64(id)}, b))
+	}
+	return evs
+}
+
 func genHistory(r *hx.Rng, focus string) []hx.Group {
 	switch k := r.Intn(100); {
 	case k < 18:
@@ -533,6 +603,10 @@ func genHistory(r *hx.Rng, focus string) []hx.Group {
 		return genSessions(r)
 	case k < 56:
 		return genDeepQos2(r)
+	case k < 62:
+		return genRetainedTree(r)
+	case k < 67:
+		return genSendClose(r)
 	}
 	g := &gen{r: r, inproc: map[int][]string{}}
 	n := 12 + r.Intn(40)
